@@ -66,7 +66,7 @@ def norm(fc, is_s):
     if fc[0] == "cmp":
         for op, x, y in ((fc[1], fc[2], fc[3]), (A.SWAP.get(fc[1], fc[1]), fc[3], fc[2])):
             lit = _lit(y)
-            px = A.peel(x)
+            px = A.peel(A.deep_payload(x))
             if op in ("Eq", "Ne") and lit is not None:
                 truth = op == "Eq"
                 if is_s(x) or is_s(px):
@@ -123,7 +123,7 @@ def option_sources(fn, res):
         if pe[0] == "agg" and pe[2] == "Err":
             out.append((b, "err", pe))
         elif pe[0] == "agg" and pe[2] == "Ok":
-            v = A.peel(dict(pe[3])["0"])
+            v = A.peel(A.deep_payload(dict(pe[3])["0"]))
             if v[0] == "field" and v[1][0] == "downcast" and v[1][2] in ("Some", "Ok"):
                 v = A.peel(v[1][1])
             out.append((b, "ok", v))
